@@ -84,14 +84,10 @@ fn stored_one_call<const N: usize, const OUT: usize>() {
     assert!(stream.total_in as usize == consumed);
     assert!(stream.next_in as usize == input.as_ptr() as usize + consumed);
     assert!(stream.next_out as usize == out.as_ptr() as usize + produced);
-    // nothing written beyond avail_out
-    let mut i = 0;
-    while i < OUT {
-        if i >= produced {
-            assert!(out[i] == init[i]);
-        }
-        i += 1;
-    }
+    // nothing written beyond what was reported as produced (symbolic index instead of a loop)
+    let i: usize = kani::any();
+    kani::assume(i < OUT && i >= produced);
+    assert!(out[i] == init[i]);
     let pending = stream.state.bit_writer.pending.pending().len();
     let in_window = stream.state.strstart as isize - stream.state.block_start;
     assert!(in_window >= 0);
@@ -102,13 +98,9 @@ fn stored_one_call<const N: usize, const OUT: usize>() {
             assert!(matches!(flush, DeflateFlush::Finish) && consumed == n as usize && pending == 0);
             let r = parse_stored(&out, produced, &mut back);
             assert!(r == Some((n as usize, true, produced)));
-            let mut i = 0;
-            while i < N {
-                if i < n as usize {
-                    assert!(back[i] == input[i]);
-                }
-                i += 1;
-            }
+            let j: usize = kani::any();
+            kani::assume(j < n as usize);
+            assert!(back[j] == input[j]);
             // size: one header per block, never more than deflateBound for level 0 (C07)
             assert!(produced <= bound(Some(&mut stream), n as usize));
         }
@@ -121,13 +113,9 @@ fn stored_one_call<const N: usize, const OUT: usize>() {
             assert!(consumed == n as usize && in_window == 0 && pending == 0);
             let r = parse_stored(&out, produced, &mut back);
             assert!(r == Some((n as usize, false, produced)));
-            let mut i = 0;
-            while i < N {
-                if i < n as usize {
-                    assert!(back[i] == input[i]);
-                }
-                i += 1;
-            }
+            let j: usize = kani::any();
+            kani::assume(j < n as usize);
+            assert!(back[j] == input[j]);
         }
         BlockState::NeedMore => {}
     }
